@@ -358,6 +358,10 @@ func PropC12(c *vs.Case, f Factory, kind string, fixed bool) error {
 		normalizeScn(&s)
 		return &s
 	}
+	if !fixed && c.Prob(1, 10) {
+		// an outage: the hook (or the API server, at the first request of the sync) fails for many syncs in a row
+		return c12Outage(c, progCopy(), f)
+	}
 	base, baseEnv, err := runC12(progCopy(), f, seedTrace, FaultSpec{Target: "none"}, nil)
 	if err != nil {
 		return err
@@ -582,4 +586,73 @@ func normalizeScn(s *Scn) {
 	}
 	sort.Strings(nil)
 	_ = strings.TrimSpace
+}
+
+// c12Outage: however often a sync fails in a row, the parent stays scheduled for a retry with back-off.
+func c12Outage(c *vs.Case, scn *Scn, f Factory) error {
+	env, err := NewEnv(scn, f)
+	if err != nil {
+		return fmt.Errorf("harness: %v", err)
+	}
+	for i := 0; i < 2; i++ {
+		if t := env.SyncFresh(); t.Panic != "" {
+			return vs.Violf("C12/panic", "panic during setup: %s", t.Panic)
+		}
+	}
+	// something to do: the parent changes
+	env.W.Sim.ExtUpdate(scn.Cfg.ParentResource, scn.ParentNS(), scn.ParentName(), func(o map[string]any) {
+		o["spec"].(map[string]any)["other"] = "changed-during-outage"
+	})
+	apiOutage := c.Bool()
+	n := 6 + c.Int(6)
+	c.Class("outage-of-%d-syncs", n)
+	c.NonTrivial()
+	if apiOutage {
+		env.W.Sim.Before = func(r *vs.Request) *vs.Fault {
+			if r.Mutating() {
+				return &vs.Fault{Code: 500, Reason: "InternalError", Message: "injected outage"}
+			}
+			return nil
+		}
+	} else {
+		h := func(_ *http.Request, _ []byte) HookResponse {
+			return HookResponse{Code: 503, Body: []byte("unavailable")}
+		}
+		env.W.Hooks.Handle(SyncURL, h)
+		env.W.Hooks.Handle(FinalizeURL, h)
+	}
+	for i := 1; i <= n; i++ {
+		env.W.SyncAll()
+		t := env.Process()
+		if t.Panic != "" {
+			return vs.Violf("C12/panic", "panic during the outage: %s", t.Panic)
+		}
+		failed := false
+		for _, h := range t.Hooks {
+			if h.Response.Code == 503 {
+				failed = true
+			}
+		}
+		for _, r := range t.Reqs {
+			if r.Injected {
+				failed = true
+			}
+		}
+		if !failed {
+			continue // nothing of this sync was hit (e.g. no write was needed)
+		}
+		rateLimited, forgot, _, _ := queueOps(t)
+		if !rateLimited || forgot {
+			return withTrace(vs.Violf("C12/failure-not-requeued", "failed sync number %d in a row (outage of the %s): the parent must be requeued with back-off and not forgotten, but the queue saw %v", i, map[bool]string{true: "API server", false: "webhook"}[apiOutage], t.Queue), t)
+		}
+	}
+	env.W.Sim.Before = nil
+	scn.Prog.Install(env.W, scn.Cfg.Kind)
+	for i := 0; i < 4; i++ {
+		env.W.SyncAll()
+		if t := env.Process(); t.Panic != "" {
+			return vs.Violf("C12/panic", "panic after the outage: %s", t.Panic)
+		}
+	}
+	return nil
 }
